@@ -18,7 +18,7 @@ from vcheck.oracle import bits, intervals, packets
 PROPERTY = "C04"
 LEVEL = "translation_validation"
 BUDGET_S = {"quick": 50, "thorough": 700}
-FLOOR = {"quick": 1000, "thorough": 10000}
+FLOOR = {"quick": 300, "thorough": 5000}
 MUST_REACH = ("delete_shadow_judged", "acls_with_removals", "removed_aces_with_cover_witness", "packets_evaluated",
               "second_call_judged")
 RULE = ("small-world ACLs (addresses from one /28, ports 1..6, protocols ip/tcp/udp/icmp/gre, flag subsets) of 2..14 lines "
@@ -248,9 +248,17 @@ def attach_members(acl, members: dict):
 def execute(ctx, case: dict) -> None:
     from cisco_acl import Acl  # pylint: disable=import-outside-toplevel
 
-    acl = Acl(case["text"], platform=case["platform"], max_ncwb=20, group_by=case.get("group_by", ""))
+    acl = Acl(case["text"], platform=case["platform"], max_ncwb=20, group_by=case.get("group_by", ""), **case.get("kwargs", {}))
     attach_members(acl, case.get("members", {}))
     skip = case.get("skip")
+    if case.get("pre_query"):
+        # history: ask for the report first, change group members in place, then delete (a remembered report would be stale)
+        try:
+            acl.shading(skip)
+        except Exception:  # pylint: disable=broad-except
+            pass
+        attach_members(acl, case.get("members_after", {}))
+        ctx.count("member_change_between_report_and_delete")
     try:
         acl.delete_shadow(skip) if skip is not None else acl.delete_shadow()
     except Exception:  # pylint: disable=broad-except
@@ -283,6 +291,7 @@ def gen_case(rng, platform):
     lines = []
     descs = []
     members = {}
+    table = {}
     seq = 0
     while len(lines) < n:
         if numbered:
@@ -306,14 +315,32 @@ def gen_case(rng, platform):
                     desc = sc.derive_bottom(rng, base, platform, small)
         else:
             desc = sc.gen_related_pair(rng, platform, groups=groups, small=small)["top"]
+        desc = dict(desc)
+        sc.unify_groups([desc], table)
         descs.append(desc)
         idx = len(lines)
         lines.append(sc.compose(desc, platform, seq=seq))
         if desc.get("src_items") or desc.get("dst_items"):
             members[str(idx)] = {"src": desc.get("src_items"), "dst": desc.get("dst_items")}
     text = grammar.acl_header(platform, "DS") + "\n" + "\n".join("  " + ln for ln in lines)
-    return {"platform": platform, "text": text, "members": members, "group_by": heading,
+    case = {"platform": platform, "text": text, "members": members, "group_by": heading,
             "skip": rng.choice([None, None, None, [], ["addrgroup"], ["nc_wildcard"], ["addrgroup", "nc_wildcard"]])}
+    if rng.random() < 0.3:
+        case["kwargs"] = {"port_nr": rng.random() < 0.5, "protocol_nr": rng.random() < 0.7}
+    if members and rng.random() < 0.5:
+        from vcheck.checks.C13 import spell  # pylint: disable=import-outside-toplevel
+
+        newtab = {name: [spell(rng, sc._small_cube(rng, sc.SMALL), platform, "Address") for _ in range(rng.randint(1, 3))]
+                  for name in table}
+        after = {}
+        # per entry, from the group names of the composed lines (one member list per group name)
+        for idx in members:
+            toks = lines[int(idx)].split()
+            names_in_line = [toks[n + 1] for n, t in enumerate(toks[:-1]) if t in ("object-group", "addrgroup")]
+            sides = [sd for sd in ("src", "dst") if members[idx].get(sd)]
+            after[idx] = {sd: list(newtab.get(nm, [])) for sd, nm in zip(sides, names_in_line)}
+        case["pre_query"], case["members_after"] = True, after
+    return case
 
 
 def run(ctx) -> None:
